@@ -115,8 +115,8 @@ def raw_class(raw):
 def gen(chk, mode, shapes, maxlen, tier, tag, workers=8, timeout=3000):
     cfg = os.path.join(chk.work, "CliGen_%s.cfg" % tag)
     with open(cfg, "w") as f:
-        f.write('CONSTANTS\n  Mode = "%s"\n  MaxLen = %d\n  ShapeSel = {%s}\n  Tier = "%s"\n  GridTier = "%s"\n  MaxPerm = 4\n' % (
-            mode, maxlen, ", ".join(map(str, shapes)), tier, "mini" if tier == "quick" else "quick"))
+        f.write('CONSTANTS\n  Mode = "%s"\n  MaxLen = %d\n  ShapeSel = {%s}\n  Tier = "%s"\n  GridTier = "%s"\n  MaxPerm = %d\n' % (
+            mode, maxlen, ", ".join(map(str, shapes)), tier, "mini" if tier == "quick" else "quick", 3 if tier == "quick" else 4))
         f.write("INIT Init\nNEXT Next\nINVARIANTS AtEnd Progress\n")
     res = core.run_tlc("CliGen.tla", cfg, workers=workers, timeout=timeout, xmx="8g")
     core.tlc_must_pass(res, "CliGen " + tag)
@@ -542,7 +542,8 @@ def run(tier):
     chk.nontrivial = len(nontrivial) + len(jclasses) + nt_cause
     chk.exhaustive = True
     chk.rule = ("TLC (CliGen.tla) runs the transcribed matcher on every argument list of length <= %s over each of the %d shapes' "
-                "token alphabets (%d lists) and on every rendered token assignment x order (%d renderings) and prints the "
+                "token alphabets (%d lists) and on every rendered token assignment x order (all permutations of up to %d argument "
+                "groups, rotations + reversal beyond; %d renderings) and prints the "
                 "definition's admissible outcome set; every list is run through the real derived parser under catch_unwind and "
                 "the outcome (value field by field / error kind + which struct's help text) must be in the set. "
                 "%d further lists (non-UTF-8, 95..%d-byte, random, look-alike, mutated renderings) are judged by TLC (CliJudge.tla); "
@@ -551,7 +552,7 @@ def run(tier):
                 "cause sequences longer than 100 bytes"
                 % ("%d (%d for the grid shapes)" % (maxlen, maxlen - 1) if tier == "quick"
                    else "%d (%d for alphabets of <= 10 tokens, %d for the grid shapes)" % (maxlen, maxlen + 1, maxlen - 1),
-                   NS, n_lists, n_render, len(recs), 300 if tier == "quick" else 131071, n_cause))
+                   NS, n_lists, 3 if tier == "quick" else 4, n_render, len(recs), 300 if tier == "quick" else 131071, n_cause))
     chk.assumptions = [
         "arguments contain no NUL byte (they are NUL-terminated strings handed over by the start-up code)",
         "undocumented points are policies, every policy admitted: a single-valued option given twice (first / last / error), "
